@@ -11,7 +11,7 @@ def make_batches(pid, n_quick, n_thorough, n_ops=(6, 12)):
         for i in range(n):
             want_clean = rng.random() < 0.9
             for _try in range(60):
-                c = (dsgcase.gen_layered(rng) if (i % 3) == 2 else
+                c = (dsgcase.gen_layered(rng, cons_prob=0.4) if (i % 3) == 2 else
                      dsgcase.gen_sel(rng, max_nodes=10, max_choices=3, cons_prob=0.1))
                 if (not want_clean or not dsgcase.guards(c)) and len(c['sel']) >= 1:
                     break
